@@ -48,22 +48,33 @@ Fixpoint is_prefix (q p : path) : bool :=
 Definition strict_prefix (q p : path) : bool := is_prefix q p && negb (path_eqb q p).
 
 (** what the journal says about [p]: [None] untouched, [Some None] gone,
-    [Some (Some v)] written *)
-Fixpoint jstate (p : path) (j : list jev) (st : option (option value)) : option (option value) :=
+    [Some (Some v)] written.  [mw = false] is the specification. *)
+Fixpoint jstate (mw : bool) (p : path) (j : list jev) (st : option (option value)) : option (option value) :=
   match j with
   | [] => st
-  | JSet q v :: j' => jstate p j' (if path_eqb q p then Some (Some v) else st)
-  | JDel q :: j' => jstate p j' (if is_prefix q p then Some None else st)
-  | JClear q :: j' => jstate p j' (if strict_prefix q p then Some None else st)
+  | JSet q v :: j' => jstate mw p j' (if path_eqb q p then Some (Some v) else st)
+  | JDel q :: j' => jstate mw p j' (if is_prefix q p then Some None else st)
+  | JClear q :: j' => jstate mw p j' (if strict_prefix q p then Some None else st)
   | JSetTree q t :: j' =>
-      jstate p j' (if is_prefix q p then Some (leaf_at (skipn (List.length q) p) t) else st)
+      jstate mw p j'
+             (if is_prefix q p then
+                match leaf_at (skipn (List.length q) p) t with
+                | Some v => Some (Some v)
+                | None =>
+                    (* nested-dict semantics: whatever else was below q is gone.
+                       [mw] (only used to recognise the known finding F-C06a): the
+                       written dict is merged instead -- what it does not mention
+                       falls back to the other levels, earlier edits below q forgotten *)
+                    if mw then None else Some None
+                end
+              else st)
   end.
 
 Definition env_prefix : string := "INVOKE_".
 
-Definition expected (dflts overrides : tree) (cfgs : list dict) (e : list (string * string))
+Definition expected (mw : bool) (dflts overrides : tree) (cfgs : list dict) (e : list (string * string))
            (j : list jev) (p : path) : option value :=
-  match jstate p j None with
+  match jstate mw p j None with
   | Some r => r
   | None =>
       let lower := first_some (map (fun g => leaf_at p (Node g)) cfgs ++ [leaf_at p dflts]) in
@@ -83,19 +94,36 @@ Definition jpaths (j : list jev) : list path :=
                       | JSetTree p t => map (fun q => p ++ fst q) (leaf_paths t)
                       end) j.
 
+Fixpoint nub_paths (l : list path) : list path :=
+  match l with
+  | [] => []
+  | p :: l' => if existsb (path_eqb p) l' then nub_paths l' else p :: nub_paths l'
+  end.
+
 Definition candidates (dflts overrides : tree) (cfgs : list dict) (j : list jev) (view : dict)
   : list path :=
-  map fst (leaf_paths (Node view)) ++ map fst (leaf_paths dflts) ++ map fst (leaf_paths overrides) ++
-  flat_map (fun g => map fst (leaf_paths (Node g))) cfgs ++ jpaths j.
+  nub_paths
+    (map fst (leaf_paths (Node view)) ++ map fst (leaf_paths dflts) ++ map fst (leaf_paths overrides) ++
+     flat_map (fun g => map fst (leaf_paths (Node g))) cfgs ++ jpaths j).
 
 (** does a key exist at [p] right now (as a setting, or as a section holding a
     setting)?  Decided by the reference itself. *)
-Definition exists_now (dflts overrides : tree) (cfgs : list dict) (e : list (string * string))
+Definition exists_now (mw : bool) (dflts overrides : tree) (cfgs : list dict) (e : list (string * string))
            (j : list jev) (p : path) : bool :=
   existsb (fun q => is_prefix p q &&
-                    match expected dflts overrides cfgs e j q with Some _ => true | None => false end)
+                    match expected mw dflts overrides cfgs e j q with Some _ => true | None => false end)
           (p :: map fst (leaf_paths dflts) ++ map fst (leaf_paths overrides) ++
            flat_map (fun g => map fst (leaf_paths (Node g))) cfgs ++ jpaths j).
+
+(** the keys that exist right now directly below [p] (as paths) *)
+Definition children_now (mw : bool) (dflts overrides : tree) (cfgs : list dict)
+           (e : list (string * string)) (j : list jev) (p : path) : list path :=
+  let cands := map fst (leaf_paths dflts) ++ map fst (leaf_paths overrides) ++
+               flat_map (fun g => map fst (leaf_paths (Node g))) cfgs ++ jpaths j in
+  map (fun q => firstn (S (List.length p)) q)
+      (filter (fun q => strict_prefix p q &&
+                        match expected mw dflts overrides cfgs e j q with Some _ => true | None => false end)
+              cands).
 
 Definition tree_ev (p : path) (t : tree) : jev :=
   match t with Leaf v => JSet p v | Node _ => JSetTree p t end.
@@ -103,7 +131,8 @@ Definition tree_ev (p : path) (t : tree) : jev :=
 (** the journal after a body: the successful edits, in order.  Whether
     [setdefault] / [pop(k, default)] change anything depends on whether the
     key exists at that moment. *)
-Fixpoint journal_run (ex : list jev -> path -> bool) (ops : list op) (outs : list outcome)
+Fixpoint journal_run (ex : list jev -> path -> bool) (kids : list jev -> path -> list path)
+         (ops : list op) (outs : list outcome)
          (j : list jev) : list jev :=
   match ops, outs with
   | o :: ops', out :: outs' =>
@@ -115,14 +144,14 @@ Fixpoint journal_run (ex : list jev -> path -> bool) (ops : list op) (outs : lis
              | Pop _ kp k None => [JDel (kp ++ [k])]
              | Pop _ kp k (Some _) => if ex j (kp ++ [k]) then [JDel (kp ++ [k])] else []
              | PopItem _ kp => match out with OPair k _ => [JDel (kp ++ [k])] | _ => [] end
-             | Clear _ kp => [JClear kp]
+             | Clear _ kp => map JDel (kids j kp)      (* clear(): every key that is there now *)
              | SetDefault _ kp k d =>
                  if ex j (kp ++ [k]) then []
                  else [match d with Some t => tree_ev (kp ++ [k]) t | None => JSet (kp ++ [k]) VNone end]
              | Update _ kp kvs => map (fun kv => tree_ev (kp ++ [fst kv]) (snd kv)) kvs
              | _ => []
              end in
-      journal_run ex ops' outs' (j ++ evs)
+      journal_run ex kids ops' outs' (j ++ evs)
   | _, _ => j
   end.
 
@@ -157,8 +186,9 @@ Definition write_ok (levels : list tree) (ev : jev) : bool :=
 
 (** two different settings answer to the same environment variable *)
 Definition env_ambiguous (ps : list path) : bool :=
-  existsb (fun a => existsb (fun b => negb (path_eqb a b) &&
-                                      String.eqb (var_name a) (var_name b)) ps) ps.
+  (* [ps] has no repetitions: two different settings with one variable name *)
+  let names := map var_name ps in
+  negb (nodupb names).
 
 Definition env_uncastable (dflts : tree) (cfgs : list dict) (e : list (string * string))
            (ps : list path) : bool :=
@@ -169,14 +199,27 @@ Definition env_uncastable (dflts : tree) (cfgs : list dict) (e : list (string * 
              | _, _ => false
              end) ps.
 
+(** (adjusted variant only) was [p] brought back by a merged dict write? *)
+Definition merge_reset (p : path) (j : list jev) : bool :=
+  existsb (fun ev => match ev with
+                     | JSetTree q t => is_prefix q p &&
+                                       match leaf_at (skipn (List.length q) p) t with Some _ => false | None => true end
+                     | _ => false
+                     end) j.
+
 (** ** judging one view *)
-Definition view_ok (dflts overrides : tree) (cfgs : list dict) (e : list (string * string))
+Definition view_ok (mw : bool) (dflts overrides : tree) (cfgs : list dict) (e : list (string * string))
            (j : list jev) (view : dict) : bool :=
   let ps := candidates dflts overrides cfgs j view in
   if env_ambiguous ps || env_uncastable dflts cfgs e ps then true
   else
     wf (Node view) &&
-    forallb (fun p => opt_value_eqb (leaf_at p (Node view)) (expected dflts overrides cfgs e j p)) ps.
+    forallb (fun p =>
+               opt_value_eqb (leaf_at p (Node view)) (expected mw dflts overrides cfgs e j p) ||
+               (* adjusted variant: a setting brought back by a merged dict write may or may
+                  may not carry the environment override, depending on when it was deleted *)
+               (mw && merge_reset p j &&
+                opt_value_eqb (leaf_at p (Node view)) (expected mw dflts overrides cfgs [] j p))) ps.
 
 Definition brecord := (nat * dict * list outcome * dict)%type.
 
@@ -185,24 +228,28 @@ Definition env_hd (envs : list (list (string * string))) : list (string * string
 Definition env_tl (envs : list (list (string * string))) : list (list (string * string)) :=
   match envs with _ :: (_ :: _) as r => r | _ => envs end.
 
-Fixpoint records_ok (c : coll) (dflts overrides : tree) (levels : list tree)
-         (bodies : nat -> list op) (recs : list brecord)
+(** [paths]: for every record, the configurations of the collections from the
+    root to where its task lives *)
+Fixpoint records_ok (mw : bool) (dflts overrides : tree) (levels : list tree)
+         (bodies : nat -> list op) (recs : list brecord) (paths : list (option (list dict)))
          (envs : list (list (string * string))) (j : list jev) : bool :=
-  match recs with
-  | [] => true
-  | (t, v0, outs, v1) :: rest =>
-      match home c t with
+  match recs, paths with
+  | [], _ => true
+  | (t, v0, outs, v1) :: rest, pth :: paths' =>
+      match pth with
       | None => false
       | Some cfgs =>
           let e := env_hd envs in
-          let j' := journal_run (exists_now dflts overrides cfgs e) (bodies t) outs j in
+          let j' := journal_run (exists_now mw dflts overrides cfgs e)
+                                (children_now mw dflts overrides cfgs e) (bodies t) outs j in
           if forallb (write_ok levels) j' then
             Nat.eqb (List.length outs) (List.length (bodies t)) &&
-            view_ok dflts overrides cfgs e j v0 &&
-            view_ok dflts overrides cfgs e j' v1 &&
-            records_ok c dflts overrides levels bodies rest (env_tl envs) j'
+            view_ok mw dflts overrides cfgs e j v0 &&
+            view_ok mw dflts overrides cfgs e j' v1 &&
+            records_ok mw dflts overrides levels bodies rest paths' (env_tl envs) j'
           else true
       end
+  | _ :: _, [] => false
   end.
 
 (** all configurations of the tree *)
@@ -220,13 +267,20 @@ Fixpoint trees_compatible (l : list tree) : bool :=
   | t :: rest => forallb (fun u => compatible t u && compatible u t) rest && trees_compatible rest
   end.
 
-Definition spec_ok (c : coll) (dflts overrides : tree) (bodies : nat -> list op)
+(** the judgement, parameterised for the adjusted variants used in attribution *)
+Definition spec_gen (mw : bool) (paths_of : list brecord -> list (option (list dict)))
+           (c : coll) (dflts overrides : tree) (bodies : nat -> list op)
            (envs : list (list (string * string)))
            (obs : result (list brecord * option err)) : bool :=
   let levels := dflts :: overrides :: map (fun g => Node g) (all_configs c) in
   if ns_wf c && trees_compatible levels && is_node dflts && is_node overrides then
     match obs with
-    | Ok (recs, None) => records_ok c dflts overrides levels bodies recs envs []
+    | Ok (recs, None) => records_ok mw dflts overrides levels bodies recs (paths_of recs) envs []
     | _ => false                 (* something escaped Executor.execute *)
     end
   else true.
+
+Definition spec_ok (c : coll) (dflts overrides : tree) (bodies : nat -> list op)
+           (envs : list (list (string * string)))
+           (obs : result (list brecord * option err)) : bool :=
+  spec_gen false (map (fun r : brecord => home c (fst (fst (fst r))))) c dflts overrides bodies envs obs.
